@@ -39,6 +39,11 @@ def gen(rng, tier):
     return [[l] for l in scen(rng, tier, 6 if tier == "quick" else 24)]
 
 
+def PROD_CASE(case):
+    """production-build pass: the server histories without a recorded trace"""
+    return not case[0].endswith(" trace")
+
+
 def nontrivial(case):
     return int(case[0].split()[3]) > 0
 
